@@ -223,8 +223,8 @@ func c03(c *ctx) {
 	r.Rule("R2", "DET", "non-deterministic sources: clock values (time.Now/Since) flow only into metrics/log sinks; file, environment and random sources in the set are a reasoned table; lib.MemHash results are used only as in-memory map keys", 60)
 	otherSources := map[string]string{
 		"(*fsm.StateMachine).ReadGenesisFromFile/os.ReadFile": "genesis file: height 0 only, identical on all nodes by definition of the chain",
-		"lib.NewJSONFromFile/os.ReadFile":                      "governance approve-list (proposals.json): the property's own premise 'same governance-vote configuration'",
-		"(*lib.Plugin).sendToPluginAsync/math/rand.Uint64":     "plugin request id: correlates request and response, never stored or hashed",
+		"lib.NewJSONFromFile/os.ReadFile":                     "governance approve-list (proposals.json): the property's own premise 'same governance-vote configuration'",
+		"(*lib.Plugin).sendToPluginAsync/math/rand.Uint64":    "plugin request id: correlates request and response, never stored or hashed",
 	}
 	clockTable := map[string]string{
 		"lib.NewFailedTx": "timestamp of a failed transaction kept in the mempool's failed-tx cache; FailedTx is never hashed, stored in state or part of a header",
